@@ -117,9 +117,12 @@ SetSeq(X)  == IF X = {} THEN <<>> ELSE LET RECURSIVE F(_) F(Y) == IF Y = {} THEN
 
 NoRes == [requeue |-> FALSE, after |-> 0, err |-> FALSE, errMsg |-> "", errKind |-> "", panic |-> FALSE, nErrs |-> 0]
 Event(name, key, rsid, ws, res, post) ==
-    [ev |-> name, key |-> key, rs |-> rsid, args |-> [x |-> ""], reads |-> 0, writes |-> Number(ws), res |-> res, state |-> post]
+    [ev |-> name, key |-> key, rs |-> rsid, args |-> [x |-> ""], reads |-> 0, writes |-> Number(ws), res |-> res, state |-> post,
+     label |-> IF rsid > 0 THEN name \o ":" \o ToString(rsid) ELSE name]
 
-EnvEvent(name, post) == Event(name, "", 0, <<>>, NoRes, post)
+\* label = the entry of the shared action vocabulary (DESIGN appendix B) a schedule replays into the real code
+EnvEventL(name, label, post) == [Event(name, "", 0, <<>>, NoRes, post) EXCEPT !.label = label]
+EnvEvent(name, post) == EnvEventL(name, name, post)
 
 -----------------------------------------------------------------------------
 Init ==
@@ -130,7 +133,7 @@ Init ==
              cValid |-> 0, active |-> 0, hasCanary |-> FALSE, canaryRS |-> 0, cNodes |-> <<>>, state |-> "", desired |-> 0,
              current |-> 0, ready |-> 0, available |-> 0, upToDate |-> 0, condPaused |-> NoCond, condFailed |-> NoCond]
     /\ bud = [env |-> EnvBudget, edit |-> EditBudget, ann |-> AnnBudget]
-    /\ ev = [ev |-> "init", state |-> AbsOf(nd, pd, rv, ed)]
+    /\ ev = [ev |-> "init", label |-> "init", state |-> AbsOf(nd, pd, rv, ed)]
 
 -----------------------------------------------------------------------------
 (* time: every age grows by one unit and saturates at the smallest value from which the controllers can no longer   *)
@@ -314,13 +317,13 @@ KReady(n, k) ==
     /\ ~pd[n][k].ready /\ ~pd[n][k].term /\ pd[n][k].phase \notin {"Failed", "Unknown"}
     /\ SetPod(n, k, [pd[n][k] EXCEPT !.ready = TRUE, !.phase = "Running", !.sAge = IF @ < 0 THEN 0 ELSE @])
     /\ UNCHANGED <<nd, rv, ed, bud>>
-    /\ ev' = EnvEvent("KReady", AbsOf(nd, pd', rv, ed))
+    /\ ev' = EnvEventL("KReady", "KReady:" \o n \o ":" \o ToString(k), AbsOf(nd, pd', rv, ed))
 
 KFinish(n, k) ==
     /\ k \in DOMAIN pd[n] /\ pd[n][k].term
     /\ pd' = [pd EXCEPT ![n] = SubSeq(@, 1, k - 1) \o SubSeq(@, k + 1, Len(@))]
     /\ UNCHANGED <<nd, rv, ed, bud>>
-    /\ ev' = EnvEvent("KFinish", AbsOf(nd, pd', rv, ed))
+    /\ ev' = EnvEventL("KFinish", "KFinish:" \o n \o ":" \o ToString(k), AbsOf(nd, pd', rv, ed))
 
 Spend == bud.env > 0 /\ bud' = [bud EXCEPT !.env = @ - 1]
 
@@ -328,25 +331,25 @@ KUnready(n, k) ==
     /\ Spend /\ k \in DOMAIN pd[n] /\ pd[n][k].ready
     /\ SetPod(n, k, [pd[n][k] EXCEPT !.ready = FALSE])
     /\ UNCHANGED <<nd, rv, ed>>
-    /\ ev' = EnvEvent("KUnready", AbsOf(nd, pd', rv, ed))
+    /\ ev' = EnvEventL("KUnready", "KUnready:" \o n \o ":" \o ToString(k), AbsOf(nd, pd', rv, ed))
 
 KFail(n, k) ==
     /\ Spend /\ k \in DOMAIN pd[n] /\ ~pd[n][k].term /\ pd[n][k].phase # "Failed"
     /\ SetPod(n, k, [pd[n][k] EXCEPT !.ready = FALSE, !.phase = "Failed"])
     /\ UNCHANGED <<nd, rv, ed>>
-    /\ ev' = EnvEvent("KFail", AbsOf(nd, pd', rv, ed))
+    /\ ev' = EnvEventL("KFail", "KFail:" \o n \o ":" \o ToString(k), AbsOf(nd, pd', rv, ed))
 
 KRestart(n, k) ==
     /\ Spend /\ k \in DOMAIN pd[n] /\ ~pd[n][k].term /\ pd[n][k].phase \in {"", "Running"}
     /\ SetPod(n, k, [pd[n][k] EXCEPT !.ready = FALSE, !.phase = "Running", !.restarts = @ + 1, !.rAge = 0, !.sAge = IF @ < 0 THEN 0 ELSE @])
     /\ UNCHANGED <<nd, rv, ed>>
-    /\ ev' = EnvEvent("KRestart", AbsOf(nd, pd', rv, ed))
+    /\ ev' = EnvEventL("KRestart", "KRestart:" \o n \o ":" \o ToString(k), AbsOf(nd, pd', rv, ed))
 
 DupPod(n) ==
     /\ Spend /\ Len(pd[n]) >= 1 /\ Len(pd[n]) < MaxPerNode
     /\ pd' = [pd EXCEPT ![n] = Append(@, [NewPod(@[1].hash, @[1].rs) EXCEPT !.ready = FALSE])]
     /\ UNCHANGED <<nd, rv, ed>>
-    /\ ev' = EnvEvent("ForeignPod", AbsOf(nd, pd', rv, ed))
+    /\ ev' = EnvEventL("ForeignPod", "ForeignPod:" \o n, AbsOf(nd, pd', rv, ed))
 
 (* environment: nodes *)
 
@@ -354,19 +357,19 @@ NodeRemove(n) ==
     /\ Spend /\ nd[n].present
     /\ nd' = [nd EXCEPT ![n].present = FALSE]
     /\ UNCHANGED <<pd, rv, ed>>
-    /\ ev' = EnvEvent("NodeRemove", AbsOf(nd', pd, rv, ed))
+    /\ ev' = EnvEventL("NodeRemove", "NodeRemove:" \o n, AbsOf(nd', pd, rv, ed))
 
 NodeAdd(n) ==
     /\ Spend /\ ~nd[n].present
     /\ nd' = [nd EXCEPT ![n].present = TRUE]
     /\ UNCHANGED <<pd, rv, ed>>
-    /\ ev' = EnvEvent("NodeAdd", AbsOf(nd', pd, rv, ed))
+    /\ ev' = EnvEventL("NodeAdd", "NodeAdd:" \o n, AbsOf(nd', pd, rv, ed))
 
 NodeSetFits(n, F) ==
     /\ Spend /\ nd[n].fits # F
     /\ nd' = [nd EXCEPT ![n].fits = F]
     /\ UNCHANGED <<pd, rv, ed>>
-    /\ ev' = EnvEvent("NodeSetFits", AbsOf(nd', pd, rv, ed))
+    /\ ev' = EnvEventL("NodeSetFits", "NodeSetFits:" \o n \o ":" \o (IF "A" \in F THEN "A" ELSE "") \o (IF "B" \in F THEN "B" ELSE "") \o (IF "C" \in F THEN "C" ELSE ""), AbsOf(nd', pd, rv, ed))
 
 (* user *)
 
@@ -375,14 +378,14 @@ SetTemplate(t) ==
     /\ ed' = [ed EXCEPT !.tmpl = t]
     /\ bud' = [bud EXCEPT !.edit = @ - 1]
     /\ UNCHANGED <<nd, pd, rv>>
-    /\ ev' = EnvEvent("SetTemplate", AbsOf(nd, pd, rv, ed'))
+    /\ ev' = EnvEventL("SetTemplate", "SetTemplate:" \o t, AbsOf(nd, pd, rv, ed'))
 
 Toggle(f) ==
     /\ bud.ann > 0
     /\ ed' = [ed EXCEPT ![f] = ~@]
     /\ bud' = [bud EXCEPT !.ann = @ - 1]
     /\ UNCHANGED <<nd, pd, rv>>
-    /\ ev' = EnvEvent("SetAnnotation", AbsOf(nd, pd, rv, ed'))
+    /\ ev' = EnvEventL("SetAnnotation", "Toggle:" \o f, AbsOf(nd, pd, rv, ed'))
 
 \* kubectl-eds canary validate: names the replica set that is the canary now
 Validate ==
